@@ -29,6 +29,7 @@ def stepWF (n : Nat) : Step → Prop
   | .unescape _ => True
   | .redactEmail _ => True
   | .parseTime _ => True
+  | .opaque _ _ => True
 def stepsWF (n : Nat) : List Step → Prop
   | [] => True
   | s :: r => stepWF n s ∧ stepsWF n r
@@ -150,6 +151,7 @@ theorem runStep_total (n : Nat) (st : XState) (r : Rec) (hl : r.fields.length = 
     split
     · exact ⟨_, _, _, rfl, hl⟩
     · exact ⟨_, _, _, rfl, hl⟩
+  | .opaque _ _, _ => ⟨_, _, _, rfl, hl⟩
 
 theorem runSteps_total (n : Nat) (st : XState) (r : Rec) (hl : r.fields.length = n) :
     (l : List Step) → stepsWF n l → Good n (runSteps st r l)
